@@ -444,6 +444,40 @@ impl<'a> Eval<'a> {
                 chk(x, "port")?;
             }
         }
+        // a net that something reads (cell input, FF D / clock / reset pin, RAM pin, output port bit) but that no
+        // element drives can never carry the RTL's value: refuse instead of silently evaluating it as X
+        {
+            let undriven = |net: NetId| st.drv[net as usize] == Drv::None;
+            let mut bad: Option<String> = None;
+            let mut see = |net: NetId, who: String| {
+                if bad.is_none() && undriven(net) {
+                    bad = Some(format!("net n{net} read by {who} has no driver"));
+                }
+            };
+            for (i, c) in m.cells.iter().enumerate() {
+                for &x in &c.inputs {
+                    see(x, format!("cell{i} {}", c.kind.symbol()));
+                }
+            }
+            for (i, f) in m.ffs.iter().enumerate() {
+                see(f.d, format!("ff{i}.d"));
+                see(f.clock, format!("ff{i}.clock"));
+                if let Some(r) = &f.reset {
+                    see(r.net, format!("ff{i}.reset"));
+                }
+            }
+            m.for_each_ram_input_net(|x| see(x, "a RAM pin".to_string()));
+            for p in &m.ports {
+                if matches!(p.dir, PortDir::Output | PortDir::Inout) {
+                    for &x in &p.nets {
+                        see(x, format!("output port {}", p.name));
+                    }
+                }
+            }
+            if let Some(b) = bad {
+                return Err(EvalError::Malformed(format!("used net without driver: {b}")));
+            }
+        }
         let mut val = vec![X; n];
         if n >= 2 {
             val[0] = 0;
